@@ -25,9 +25,9 @@ META = dict(
           'A case = (logic, shape, context, interpretation); non-trivial = distinct (logic, shape, context) and frame cases.'),
     assumptions=['REF-SEM semantics (vlib/ref/sem.py), incl. lattice reading of the FDE family',
                  'components are atoms A, B / monadic Fx: exactness for arbitrary components follows by compositionality of REF-SEM'],
-    min_events={'any': {'shapes_with_expansion': 2000, 'interpretations_checked': 20000, 'frame_cases': 2000, 'logics': 57}},
-    budget=dict(quick=500, thorough=1800),
-    unit_timeout=dict(quick=400, thorough=1500),
+    min_events={'any': {'shapes_with_expansion': 2000, 'interpretations_checked': 20000, 'frame_cases': 2000, 'logics': 52}},
+    budget=dict(quick=1500, thorough=1800),
+    unit_timeout=dict(quick=900, thorough=3000),
 )
 
 A, B, E = syn.atom(0), syn.atom(1), syn.atom(4)
